@@ -182,7 +182,7 @@ impl Prop for C19 {
                 let bits = crate::bits::effective_bits(BvHow::PosUsize, &raw);
                 let m = BitModel::new(bits.clone());
                 let who = bc.kind.name();
-                let mut paths: Vec<(BvHow, WrapHow)> = vec![(BvHow::Bools, WrapHow::New), (BvHow::Pushes, WrapHow::From), (BvHow::PosUsize, WrapHow::New), (BvHow::PosU32, WrapHow::From), (BvHow::PosI64, WrapHow::New)];
+                let mut paths: Vec<(BvHow, WrapHow)> = vec![(BvHow::Bools, WrapHow::New), (BvHow::Pushes, WrapHow::From), (BvHow::PosUsize, WrapHow::New), (BvHow::PosU32, WrapHow::From), (BvHow::PosI64, WrapHow::New), (BvHow::ZerosThenPush, WrapHow::From), (BvHow::PosDup, WrapHow::New)];
                 if matches!(bc.kind, BitsKind::Da0 | BitsKind::Da1 | BitsKind::Bvm) {
                     paths.push((BvHow::Bools, WrapHow::Collect));
                     paths.push((BvHow::PosUsize, WrapHow::Collect));
@@ -225,7 +225,7 @@ impl Prop for C19 {
                 let q = qc.content.expand();
                 let m = QuadModel::new(q.clone());
                 let who = qc.kind.name();
-                let paths = [QuadHow::FromQVector(IntTy::U8), QuadHow::FromQVector(IntTy::I64), QuadHow::NewSlice(IntTy::U16), QuadHow::NewSlice(IntTy::U128), QuadHow::Collect(IntTy::I8), QuadHow::Collect(IntTy::Usize)];
+                let paths = [QuadHow::FromQVector(IntTy::U8), QuadHow::FromQVector(IntTy::I64), QuadHow::NewSlice(IntTy::U16), QuadHow::NewSlice(IntTy::U128), QuadHow::Collect(IntTy::I8), QuadHow::Collect(IntTy::Usize), QuadHow::Builder(4), QuadHow::Builder(17), QuadHow::Builder(1)];
                 let mut vals: Vec<(QuadHow, AnyVal, u64)> = Vec::new();
                 for p in paths {
                     let v = AnyVal::Quad(QuadVal::build(qc.kind, p, &q, qc.salt), m.clone());
